@@ -53,6 +53,7 @@ CheckMsg(r) ==
          /\ Must(f.ctorpresent = 0, wf @@ [what |-> "constructor does not initialise the field to its invalid value"])
          /\ Must(f.l >= 1 /\ (IF f.b = 7 THEN f.l ELSE SizeOf(f.b) * (IF f.a = 1 THEN f.l ELSE 1)) <= 255, wf @@ [what |-> "encoded size does not fit in one byte", length |-> f.l])
          /\ Must(f.n \in 0..254, wf @@ [what |-> "field number 255 is reserved"])
+         /\ Must(f.n = f.idx, wf @@ [what |-> "the entry found under one field number (decoder) names another field number (encoder)", index |-> f.idx])
 
 CheckSdk(row) ==
     \* row: [m, n, name, b, a]; compared wherever the compiled profile has the field
